@@ -36,10 +36,17 @@ FeatOk(o, g, fmt, prec) ==
   IF o.t = "float" THEN g.t = "float" /\ (IF fmt = "csv" THEN WithinPrec(o.x, g.x, prec) ELSE Abs(o.x - g.x) <= 1)
   ELSE o = g
 
+(* a double-precision feature in [0, 2), in NANO units: csv keeps it to half a unit of the requested decimal also beyond the 6th
+   (Pow10 up to 6: precisions 3..9), every other format exactly *)
+HpOk(o_n, g_n, fmt, prec) ==
+  IF fmt # "csv" \/ prec < 0 \/ prec >= 9 THEN Abs(g_n - o_n) <= 1
+  ELSE IF prec < 3 THEN TRUE
+  ELSE 2 * Abs(g_n - o_n) <= Pow10(9 - prec) + 2
 RowOk(o, g, fmt, prec) ==
   /\ \A a \in 1..3 : IF fmt = "csv" THEN WithinPrecQ(o.pos[a], g.pos[a], prec, o.q[a]) ELSE o.pos[a] = g.pos[a]
   /\ g.angle_urad <= AngleTol(fmt, prec)
   /\ DOMAIN o.f = DOMAIN g.f /\ \A c \in DOMAIN o.f : FeatOk(o.f[c], g.f[c], fmt, prec)
+  /\ HpOk(o.hp, g.hp, fmt, prec)
 
 (* event: [via, suffix, prec, cols (features of the original), header (columns of the stored frame),
            stored_as ("csv"|"parquet"|"frame"), rows, back, err] *)
@@ -57,6 +64,7 @@ Why(e) == IF e.err # "" THEN "UnexpectedError"
           ELSE IF Len(e.back) # Len(e.rows) THEN "RowCount"
           ELSE IF \E i \in 1..Len(e.rows) : \E a \in 1..3 : ~(IF e.stored_as = "csv" THEN WithinPrecQ(e.rows[i].pos[a], e.back[i].pos[a], e.prec, e.rows[i].q[a]) ELSE e.rows[i].pos[a] = e.back[i].pos[a]) THEN "Position"
           ELSE IF \E i \in 1..Len(e.rows) : e.back[i].angle_urad > AngleTol(IF e.stored_as = "csv" THEN "csv" ELSE "exact", e.prec) THEN "Orientation"
+          ELSE IF \E i \in 1..Len(e.rows) : ~HpOk(e.rows[i].hp, e.back[i].hp, IF e.stored_as = "csv" THEN "csv" ELSE "exact", e.prec) THEN "DoublePrecisionFeature"
           ELSE "Features"
 
 =============================================================================
